@@ -58,7 +58,12 @@ PROPS = {
         "not_decided": "equality with a byte vector for all call sequences and buffer sizes (values of pos/cap/offset/total_len across histories); set_len near u64::MAX",
     },
     "C08": {
-        "rules": [rules_struct.branchunit("C08"), rules_zero.run, rules_follow.make("R-INIT", "C08"), rules_io.poskeep, rules_det.short, rules_struct.ceil("C08"), rules_struct.initkind("C08"), rules_struct.keepcount("C08"), rules_units.units("C08"), rules_follow.make("R-CUTTAIL", "C08"), rules_zero.minifill("C08"), rules_zero.surplus("C08"), rules_det.written("C08")],
+        # Since the repair of D26 (bc7ee1f) the zero fill clears the WHOLE gained range of either kind of chain, so what
+        # a kept, recycled or never-initialised sector held can no longer come back when a stream grows: R-INIT,
+        # R-INITKIND, R-KEEPCOUNT, R-CEIL and R-CUTTAIL are no longer necessary conditions of THIS property and were
+        # taken out of its check (they still run for C02 / C03 / C06 / C15, where chain length, sector kind and
+        # released space are the matter).
+        "rules": [rules_struct.branchunit("C08"), rules_zero.run, rules_io.poskeep, rules_det.short, rules_units.units("C08"), rules_zero.minifill("C08"), rules_zero.surplus("C08"), rules_det.written("C08")],
         "explanation": "R-ZERO: in the function that stores a stream's new length (resize_stream, reached from Stream::set_len), a zero-fill event (a backend write whose data provenance is io::repeat(0) / [0; N], directly or in a direct helper) exists, is controlled only by the comparison new length > old length, and lies on every path from the 'grows' edge of that comparison to the length store (error exits excepted). "
                        "Alternatively accepted: zeroing on shrink in both chain kinds plus zeroing of newly allocated mini sectors. R-INIT: regular sectors are reset with the requested initialiser (SectorInit::Zero for stream data) on both the reuse and the append path of allocate_sector.",
         "not_decided": "that the bytes are zero and that the zero-filled range is exactly [old, new): values",
@@ -370,6 +375,12 @@ _ADDED15 = {
     "C15": " R-FREELIST also runs for this property (a free list that is cut instead of filtered after the MiniFAT was trimmed forgets released mini sectors that sit behind the trimmed ones). R-DIRLEN also covers the vector that open_internal hands to Directory::new: popping trailing unallocated entries at load time makes allocate_dir_entry extend a chain that has room.",
 }
 for _pid, _txt in _ADDED15.items():
+    PROPS[_pid]["explanation"] = PROPS[_pid]["explanation"] + _txt
+
+_ADDED16 = {
+    "C08": " AS OF THE REPAIR OF D26: the zero fill clears the whole gained range of a mini chain and of a regular chain alike. Clauses about what sectors hold when they are kept after a shrink, recycled or handed out (R-INIT, R-INITKIND, R-KEEPCOUNT, R-CEIL, R-CUTTAIL, named above for the history of this check) are therefore no longer necessary conditions of this property and no longer run for it; they run for C02, C03, C06 and C15. What this check decides today: R-ZERO (fill exists, is controlled by new > old only, lies before the length store and not after it), R-MINIFILL and R-SURPLUS (neither fill is capped at a sector boundary while a write-back can leave surplus sectors), R-BRANCHUNIT, R-UNITS, R-POSKEEP, R-SHORT, R-WRITTEN.",
+}
+for _pid, _txt in _ADDED16.items():
     PROPS[_pid]["explanation"] = PROPS[_pid]["explanation"] + _txt
 
 
